@@ -2346,7 +2346,19 @@ class Canon:
             if isinstance(f, ast.Attribute) and norm.is_reference(f.value) and f.attr.startswith("_") and not f.attr.startswith("__") and f.attr not in keep:
                 # r._m(..) with _m a private method no table knows, defined by a few classes of the program: whatever r is, the call
                 # runs the definition of r's class: `if isinstance(r, A): <A._m> elif isinstance(r, B): <B._m> ..` (devirtualised)
-                d = self._dispatcher(f.attr, module, known)
+                # (a classmethod binds the receiver itself only when the receiver is a class: it is tested with issubclass here)
+                scope = getattr(lookup, "context", None) or [fn]
+                names = {u(f.value)}
+                for s_ in scope:        # one step of aliasing: `model = candidate` binds the element a generator helper yields
+                    for n in ast.walk(s_):
+                        if isinstance(n, ast.Assign) and len(n.targets) == 1 and isinstance(n.targets[0], ast.Name) and isinstance(n.value, ast.Name) \
+                                and (n.targets[0].id in names or n.value.id in names):
+                            names |= {n.targets[0].id, n.value.id}
+                        if isinstance(n, ast.For) and isinstance(n.target, ast.Name) and isinstance(n.iter, (ast.GeneratorExp, ast.ListComp)) \
+                                and isinstance(n.iter.elt, ast.Name) and (n.target.id in names or n.iter.elt.id in names):
+                            names |= {n.target.id, n.iter.elt.id}
+                recv_is_class = any(isinstance(n, ast.Call) and u(n.func) == "issubclass" and n.args and u(n.args[0]) in names for s_ in scope for n in ast.walk(s_))
+                d = self._dispatcher(f.attr, module, known, recv_is_class)
                 if d is not None:
                     return d, True, prep
             if isinstance(f, ast.Name):
@@ -2367,8 +2379,8 @@ class Canon:
             return None
         return lookup
 
-    def _dispatcher(self, name, module, known):
-        key = (name, module.name)
+    def _dispatcher(self, name, module, known, recv_is_class=False):
+        key = (name, module.name, recv_is_class)
         cache = self.__dict__.setdefault("_dispatchers", {})
         if key in cache:
             return cache[key]
@@ -2379,7 +2391,10 @@ class Canon:
         sigs = set()
         for c, m, _ in definers:
             a = m.args
-            if m.decorator_list or a.vararg or a.kwarg or a.kwonlyargs or a.posonlyargs or not a.args or _contains(m, (ast.Yield, ast.YieldFrom, ast.Await)):
+            decos = [u(d_) for d_ in m.decorator_list]
+            if decos and not (recv_is_class and decos == ["classmethod"] and len(definers) == 1):
+                return None
+            if a.vararg or a.kwarg or a.kwonlyargs or a.posonlyargs or not a.args or _contains(m, (ast.Yield, ast.YieldFrom, ast.Await)):
                 return None
             if any(isinstance(n, ast.Call) and u(n.func) == "super" for n in ast.walk(m)):
                 return None
@@ -2410,6 +2425,8 @@ class Canon:
                 test = ast.Call(func=ast.Name(id="isinstance", ctx=ast.Load()), args=[ast.Name(id=params[0], ctx=ast.Load()), ast.Name(id=c.name, ctx=ast.Load())], keywords=[])
                 tail = [ast.If(test=test, body=b_, orelse=tail)]
             body = tail
+        if not recv_is_class and any(u(d_) == "classmethod" for _, m, _ in definers for d_ in m.decorator_list):
+            return None
         d = ast.FunctionDef(name=name, args=copy.deepcopy(first.args), body=body, decorator_list=[], returns=None, type_comment=None, type_params=[])
         ast.copy_location(d, first)
         ast.fix_missing_locations(d)
@@ -2617,6 +2634,7 @@ class Canon:
         from .genloop import inline_generator_loops, inline_guard_helpers
         b = inline_generator_loops(b, look)       # loops over unknown generator helpers: the helper's loop with the body at its yield
         b = inline_guard_helpers(b, look)         # if not helper(..): raise ..  with a boolean helper that returns from inside a loop
+        look.context = b
         b = lift_walrus(lift_ifexp(b))
         inl = Inliner(look)
         b = inl.tail_generator_delegation(b, (fn.name,))
